@@ -69,6 +69,12 @@ CHECKS = {
         'postfix returns the old position, a<b iff b-a>0, the derived comparisons agree with < and ==, begin..end visits each bit exactly once in order - are lemma harnesses proved over the contracts alone.',
    note=PROOF_NOTE + 'Two iterator kinds, fixed element types; positions unbounded within a container of up to 2^40 bits / 10^6 ints. it[n] == *(it+n) is carried by the two contracts, not by a lemma harness; stepping-iterator traversal lemma not closed.',
    technique='CBMC code contracts (DFCC) on mechanically lowered iterator classes and CRTP friend operators; law lemmas over contracts (replace-call-with-contract)', design='4 C12'),
+ 'C20': dict(
+   text='executable_path(), prefix_path() (Linux branch) and endianness() are lowered and proved against contracts over a ghost install path of ANY length 1..PATH_MAX and any non-NUL bytes: '
+        'readlink is a contract-modelled external (min(len, bufsz) bytes, no terminator, frame = exactly those bytes); executable_path returns exactly the path with every buffer access inside the buffer and the C string provably terminated; '
+        'prefix_path returns path[0 .. second-to-last separator] for every position of the separators (std::string operations through sampled contracts with prophecy ghosts); endianness() returns the byte order of the verified platform model.',
+   note=PROOF_NOTE + 'std::string is an abstract-value model (trusted); quantified facts are sampled at ghost positions (sound: every real execution is covered, argument in DESIGN.md 3.5). Other platforms\' branches are not compiled here.',
+   technique='CBMC code contracts (DFCC) on mechanically lowered xsystem.hpp/xplatform.hpp; modelled readlink and std::string with sampled contracts and prophecy ghosts; native replay installs the binary at long / unusual paths under ASan', design='4 C20'),
 }
 NA = {
  'C05': 'variant lifetimes under exceptions, placement-new into a recursive union and visitation tables built from lambdas: no C++ exception/lifetime semantics in CBMC and no faithful mechanical lowering; a hand-written model would be a different technique (DESIGN.md 6)',
